@@ -71,6 +71,8 @@ def _one(prop, tier):
                         files = p.get("anchors", {}).get("files", [])
         if files:
             param_used(ctx, f"{prop}.param-used", files)
+            from .rules.common_pitfalls import pitfalls
+            pitfalls(ctx, f"{prop}.pitfalls", files)
 
     return run_property(prop, tier, rules, ev, selftest)
 
